@@ -483,6 +483,39 @@ structure LawfulCodecs (C : Codecs) (T : String → Prop) : Prop where
         ∀ suffix, C.dec typ (bs ++ suffix) = .ok (v', bs.length)
   size : ∀ typ n v bs v', T typ → fixedSize typ = some n → C.enc typ v = .ok (bs, v') → bs.length = n
 
+/-- the extra law the re-encoding corollary needs, for the types `F` whose buffer format `Marshal`
+    respects: after `SetBufferFormat k` (a `UCHAR`), the value `Marshal` leaves behind still has format `k` -/
+structure LawfulFmt (C : Codecs) (F : String → Prop) : Prop where
+  fmt : ∀ typ k v bs v', F typ → k < 256 → C.enc typ (C.setFmt k v) = .ok (bs, v') → C.setFmt k v' = v'
+
+/-- shape of a marshal program (of the straight-line fragment) whose second run, on the field values
+    the first run left behind, changes nothing: every `SetBufferFormat` (with a one-byte format) is
+    immediately followed by the `Marshal` of the same nested field; no `c.F = len(c.G)` -/
+def reencodableM : List MStmt → Bool
+  | [] => true
+  | .setFmt f k :: r =>
+    (match r with
+      | .sub _ g _ :: _ => f == g && decide (k < 256)
+      | _ => false) && reencodableM r
+  | .assignLen _ _ _ :: _ => false
+  | _ :: r => reencodableM r
+
+/-- nested types marshalled right after a `SetBufferFormat` -/
+def fmtTypesM : List MStmt → List String
+  | [] => []
+  | .setFmt _ _ :: r => (match r with | .sub _ _ t :: _ => [t] | _ => []) ++ fmtTypesM r
+  | _ :: r => fmtTypesM r
+
+def Cmd.fmtTypes (c : Cmd) : List String := fmtTypesM c.marshal
+
+/-- static side condition of the re-encoding corollary: `reencodableM`, and the marshal program only
+    emits declared fields -/
+def Reencodable (c : Cmd) : Bool :=
+  reencodableM c.marshal &&
+  (match layoutM c.marshal with
+    | some m => (m.map Slot.field).all (fun f => (c.fields.map (·.1)).contains f)
+    | none => false)
+
 /-- integers fit the width the marshal program gives them -/
 def intsFit (env : Env) : List MStmt → Bool
   | [] => true
